@@ -127,9 +127,17 @@ class Sim:
             if os.path.isfile(p):
                 with open(p, errors='surrogateescape') as f:
                     out[name] = f.read()
+        # generated .pc files: those the build file names as outputs of its
+        # regeneration step (a left-over file of an earlier generation that
+        # nothing mentions any more is nobody's output)
+        bf = out.get(self.buildfile)
         for p in sorted(glob.glob(os.path.join(build, 'pkgconfig', '*.pc'))):
+            rel = os.path.relpath(p, build)
+            if bf is not None and rel not in bf:
+                self.count('leftover_pc_ignored')
+                continue
             with open(p, errors='surrogateescape') as f:
-                out[os.path.relpath(p, build)] = f.read()
+                out[rel] = f.read()
         return out
 
     def aux(self, build=None):
